@@ -57,6 +57,12 @@ func (e DocumentError) ErrCode() int {
 	return int(e.code)
 }
 
+// HasFile reports whether the error has been attached to a file yet (the
+// file's name may be empty).
+func (e DocumentError) HasFile() bool {
+	return e.file != nil
+}
+
 func (e DocumentError) Filename() string {
 	if e.file == nil {
 		return ""
